@@ -501,8 +501,45 @@ Lemma handle_rename_T (PA : path -> Prop) s h1 n1 h2 n2 :
   T PA s (fst (handle_rename s h1 n1 h2 n2)).
 Proof. intros A1 A2 B1 B2. unfold handle_rename. handler. Qed.
 
-Lemma handle_mnt_T (PA : path -> Prop) s p : PA (clean_comps [] (split_path p)) -> T PA s (fst (handle_mnt s p)).
-Proof. intros H. unfold handle_mnt. handler. Qed.
+(* MNT: every proper non-root prefix of the cleaned path is Lstat-ed (symlink check), then the path itself *)
+Lemma prefix_removelast (cp pre : path) : (exists rest, pre ++ rest = cp) -> exists rest, removelast pre ++ rest = cp.
+Proof.
+  intros [rest E]. destruct pre as [|c r]; [exists rest; exact E|].
+  exists (last (c :: r) [] :: rest). rewrite <- E.
+  assert (A : c :: r = removelast (c :: r) ++ [last (c :: r) []]) by (apply app_removelast_last; discriminate).
+  transitivity ((removelast (c :: r) ++ [last (c :: r) []]) ++ rest); [rewrite <- app_assoc; reflexivity|].
+  rewrite <- A. reflexivity.
+Qed.
+Lemma mnt_prefix_check_T (PA : path -> Prop) cp :
+  (forall pre, pre <> [] -> (exists rest, pre ++ rest = cp) -> PA pre) ->
+  forall fuel s pre, (exists rest, pre ++ rest = cp) -> T PA s (fst (mnt_prefix_check s pre fuel)).
+Proof.
+  intros Hp. induction fuel as [|k IH]; intros s pre Q; cbn [mnt_prefix_check]; [destruct pre; apply T_refl|].
+  destruct pre as [|c r]; [apply T_refl|].
+  assert (Hpre : PA (c :: r)) by (apply Hp; [discriminate|exact Q]).
+  pose proof (do_lstat_T PA s (c :: r) Hpre) as R. destruct (do_lstat s (c :: r)) as [s1 res]. cbn [fst] in R.
+  pose proof (IH s1 (removelast (c :: r)) (prefix_removelast cp (c :: r) Q)) as R2.
+  destruct res as [fi|e]; [destruct (kind_eqb (fi_kind fi) KLink)|]; cbn [fst];
+    first [exact R | eapply T_trans; [exact R|exact R2]].
+Qed.
+Lemma handle_mnt_T (PA : path -> Prop) s p :
+  (forall pre rest, pre ++ rest = clean_comps [] (split_path p) -> pre <> [] \/ rest = [] -> PA pre) ->
+  T PA s (fst (handle_mnt s p)).
+Proof.
+  intros H. unfold handle_mnt. set (cp := clean_comps [] (split_path p)) in *.
+  assert (Hcp : PA cp) by (apply (H cp []); [apply app_nil_r|right; reflexivity]).
+  destruct (negb (is_abs p)); [apply T_refl|]. cbv zeta.
+  assert (R0 : T PA s (fst (mnt_prefix_check s (removelast cp) (length cp)))).
+  { apply (mnt_prefix_check_T PA cp).
+    - intros pre NE [rest E]. apply (H pre rest E). left. exact NE.
+    - apply prefix_removelast. exists []. apply app_nil_r. }
+  destruct (mnt_prefix_check s (removelast cp) (length cp)) as [s0 linked]. cbn [fst] in R0.
+  destruct linked; [exact R0|].
+  pose proof (srv_lookup_T PA s0 cp Hcp) as R1. destruct (srv_lookup s0 cp) as [s1 r]. cbn [fst] in R1.
+  destruct r as [a|e]; [|cbn [fst]; eapply T_trans; eassumption].
+  pose proof (alloc_T PA s1 cp a Hcp) as R2. destruct (alloc s1 cp a) as [s2 fh]. cbn [fst] in *.
+  eapply T_trans; [exact R0|]. eapply T_trans; eassumption.
+Qed.
 
 (* ---------- directory listings ---------- *)
 Lemma lookup_all_T (PA : path -> Prop) d names : (forall n, name_sane n = true -> PA (d ++ [n])) ->
@@ -627,7 +664,7 @@ Lemma step_T (PA : path -> Prop) s c r :
   (forall h p, get (hm s) h = Some p -> PA p) ->
   (forall h p n, get (hm s) h = Some p -> vname n -> PA (p ++ [n])) ->
   (is_listing r = true -> forall h p n, get (hm s) h = Some p -> name_sane n = true -> PA (p ++ [n])) ->
-  (forall mp, r = RMnt mp -> PA (clean_comps [] (split_path mp))) ->
+  (forall mp pre rest, r = RMnt mp -> pre ++ rest = clean_comps [] (split_path mp) -> pre <> [] \/ rest = [] -> PA pre) ->
   T PA (clear_log s) (fst (step s c r)).
 Proof.
   intros C1 C2 C3 C4. unfold step. set (s0 := clear_log s).
@@ -656,7 +693,7 @@ Proof.
   - apply handle_fsx_T. exact (D1 h).
   - apply handle_fsx_T. exact (D1 h).
   - apply handle_commit_T. exact (D1 h).
-  - apply handle_mnt_T. apply C4. reflexivity.
+  - apply handle_mnt_T. intros pre rest. apply (C4 p pre rest eq_refl).
   - apply T_of_same, with_conf_same.
   - apply T_of_same, with_conf_same.
   - apply T_of_same, with_conf_same.
@@ -666,21 +703,22 @@ Qed.
 Definition HOK (s : srv) : Prop := forall h p, get (hm s) h = Some p -> gpath p.
 
 (* p is: a handle path of s; or one joined with a validated component; or (READDIR/READDIRPLUS) one joined
-   with a sane name of the listing; or (MNT) the cleaned path a handle is requested for *)
+   with a sane name of the listing; or (MNT) the cleaned path a handle is requested for, or a non-empty proper
+   prefix of it (Lstat-ed by the symlink check) *)
 Definition okp (s : srv) (r : req) (p : path) : Prop :=
   (exists h hp, get (hm s) h = Some hp /\
      (p = hp \/ exists c, p = hp ++ [c] /\ (vname c \/ (is_listing r = true /\ name_sane c = true))))
-  \/ (exists mp, r = RMnt mp /\ p = clean_comps [] (split_path mp)).
+  \/ (exists mp rest, r = RMnt mp /\ p ++ rest = clean_comps [] (split_path mp) /\ (p <> [] \/ rest = [])).
 Definition call_ok (s : srv) (r : req) (b : bcall) : Prop :=
   okp s r (b_path b) /\ (b_op b = BRename -> exists np, b_path2 b = render np /\ okp s r np).
 
 Lemma okp_gpath s r p : HOK s -> okp s r p -> gpath p.
 Proof.
-  intros H [(h & hp & G & [->|(c & -> & [V|[_ V]])])|(mp & _ & ->)].
+  intros H [(h & hp & G & [->|(c & -> & [V|[_ V]])])|(mp & rest & _ & E & _)].
   - exact (H h hp G).
   - apply gpath_app; [exact (H h hp G)|apply vname_gcomp; exact V].
   - apply gpath_app; [exact (H h hp G)|apply name_sane_gcomp; exact V].
-  - apply mnt_path_gpath.
+  - pose proof (mnt_path_gpath mp) as G. rewrite <- E in G. apply Forall_app in G. exact (proj1 G).
 Qed.
 
 Lemma step_okp s c r : T (okp s r) (clear_log s) (fst (step s c r)).
@@ -689,7 +727,7 @@ Proof.
   - intros h p G. left. exists h, p. split; [exact G|left; reflexivity].
   - intros h p n G V. left. exists h, p. split; [exact G|right; exists n; split; [reflexivity|left; exact V]].
   - intros L h p n G V. left. exists h, p. split; [exact G|right; exists n; split; [reflexivity|right; split; assumption]].
-  - intros mp E. right. exists mp. split; [exact E|reflexivity].
+  - intros mp pre rest E A B. right. exists mp, rest. split; [exact E|split; [exact A|exact B]].
 Qed.
 
 Lemma step_paths s c r : HOK s ->
